@@ -166,6 +166,18 @@ CHECKS = {
         BASE_NOTE + 'Kinds and schemas are compared through the objects embedding them; accidental 64-bit hash collisions of unequal objects are allowed.',
         'DESIGN.md section 5 C08',
     ),
+    'C09': (
+        'Rocq proof over the matcher / parser-resolution / priority-selection model (induction over statements, refutation witness) + differential correspondence with real importers',
+        'PARTIAL. Proved for every statement and pool: the selected feed matches and every feed ranked before it does not, '
+        'missing-source exactly when no feed matches; a feed passed over by the matcher could not have parsed the statement; '
+        'feeds advertising tables only are selected exactly when their parser resolves the statement. Refuted (known finding): '
+        'matcher = parser resolution in general - a feed advertising only a join/reference/sub-query is selected and then '
+        'unparseable. Correspondence: pools of 1-3 feeds with configured priorities and arbitrary advertised source subsets, '
+        'single statements and sequences of statements on one long-lived importer, followed by the selected feed\'s real parser. '
+        'Descending-stable ordering of the pool is modelled and exercised but its sortedness is not separately proved.',
+        BASE_NOTE + 'Provider/config plumbing for priorities is exercised by the correspondence only.',
+        'DESIGN.md section 5 C09',
+    ),
 }
 NOT_YET = 'model and theorems not built yet in this round (planned, see DESIGN.md section 5/9)'
 
